@@ -54,6 +54,16 @@ def _markup_sites(ctx, reach):
                     and isinstance(x.func.value, ast.Constant) and isinstance(x.func.value.value, str):
                 lit = x.func.value.value
                 dyn = list(x.args) + [k.value for k in x.keywords]
+            if lit is not None and dyn:
+                # interpolated module constants (an XML declaration kept in a named constant) are literal text
+                keep = []
+                for d in dyn:
+                    okc, cv = const_str(ctx, fi.module, d)
+                    if okc and isinstance(cv, str):
+                        lit += cv
+                    else:
+                        keep.append(d)
+                dyn = keep
             if lit is None or not dyn or not MARKUP_LIT.search(lit):
                 continue
             out.append((fi, x, dyn, fi.fq in reach))
